@@ -9,6 +9,7 @@ from .. import core, pyq
 from ..pysrc import Module, dotted, norm
 
 REL = "hy/repl.py"
+STRICT = {"REPL-FRESH", "REPL-CONT", "REPL-ERR", "PEOI-GUARD", "SRC-RESET"}
 
 
 def _stdlib_runsource(ctx):
@@ -71,7 +72,7 @@ def check(ctx, src):
     for n in pyq.walk_no_nested(rs):
         if isinstance(n, ast.For) and "_repl_results_symbols" in norm(n.iter):
             shift = n
-    ctx.require(shift is not None, "the *1/*2/*3 shift loop was not found in REPL.runsource")
+    ctx.need(shift is not None, "the *1/*2/*3 shift loop was not found in REPL.runsource")
     key = f"{REL}|REPL.runsource|shift"
     # last_value read feeding the shift
     lv_stmt = None
@@ -95,7 +96,7 @@ def check(ctx, src):
               detail=want)
     init = mod.func("REPL.__init__")
     sy = [n for n in ast.walk(init) if isinstance(n, ast.Assign) and any(_is_self_attr(t, "_repl_results_symbols") for t in n.targets)] if init else []
-    ctx.require(len(sy) == 1, "REPL.__init__ no longer defines _repl_results_symbols")
+    ctx.need(len(sy) == 1, "REPL.__init__ no longer defines _repl_results_symbols")
     ctx.check(norm(sy[0].value) == "[mangle('*{}'.format(i + 1)) for i in range(3)]", "REPL-SHIFT", f"{REL}|REPL.__init__|symbols",
               f"result symbols are `{norm(sy[0].value)}`", REL, sy[0].lineno, detail="*1,*2,*3 ascending, mangled")
 
@@ -116,7 +117,7 @@ def check(ctx, src):
                 if _positive(g, x):
                     flag = x.attr
     lv_assign = [a for a in pyq.walk_no_nested(rc) if isinstance(a, ast.Assign) and any(_is_self_attr(t, "last_value") for t in a.targets)]
-    ctx.require(len(lv_assign) == 1, "REPL.runcode no longer assigns self.last_value exactly once")
+    ctx.need(len(lv_assign) == 1, "REPL.runcode no longer assigns self.last_value exactly once")
     lva = lv_assign[0]
     in_try = [t for t, part in pyq.enclosing_try_parts(lva) if part == "body"]
     if flag is None:
@@ -127,7 +128,7 @@ def check(ctx, src):
         # (1) cleared in runsource before delegating
         sup = [c for c in pyq.calls(rs) if isinstance(c.func, ast.Attribute) and c.func.attr == "runsource" and isinstance(c.func.value, ast.Call)
                and dotted(c.func.value.func) == "super"]
-        ctx.require(len(sup) == 1, "REPL.runsource no longer delegates to super().runsource exactly once")
+        ctx.need(len(sup) == 1, "REPL.runsource no longer delegates to super().runsource exactly once")
         sup_i = pyq.top_stmt_index(rs, sup[0])
         clears = [(k, st) for k, st in enumerate(rs.body) if isinstance(st, ast.Assign) and any(_is_self_attr(t, flag) for t in st.targets)
                   and isinstance(st.value, ast.Constant) and not st.value.value]
@@ -228,7 +229,7 @@ def check_cont(ctx, src, mod=None):
             for h in t.handlers:
                 if h.type is not None and norm(h.type) in ("Exception", "BaseException"):
                     handler = h
-    ctx.require(handler is not None, "HyCompile.__call__ no longer has its `except Exception` conversion handler")
+    ctx.need(handler is not None, "HyCompile.__call__ no longer has its `except Exception` conversion handler")
     rer = None
     for st in handler.body:
         if isinstance(st, ast.If) and _covers_peoi(st.test, handler.name) and st.body and isinstance(st.body[0], ast.Raise) and st.body[0].exc is None:
